@@ -11,6 +11,7 @@ import (
 	"path/filepath"
 	"regexp"
 	"sort"
+	"strconv"
 	"strings"
 	"time"
 
@@ -705,6 +706,120 @@ func patchOverlay(patchFile string) (map[string][]byte, error) {
 		overlay[filepath.Join(repoDir, m[1])] = b
 	}
 	return overlay, nil
+}
+
+// cmdTrySeeds feeds every seeded change (seeded/<id>/patch.diff) through the
+// loader overlay into the quick check of every claimed property whose packages
+// contain a file the change touches, and records which obligations fail.
+// /repo itself is not modified. Output: one line per change, also written to
+// seeded/RESULTS.txt.
+func cmdTrySeeds(args []string) int {
+	dirs, _ := filepath.Glob("/verif/seeded/C*-*")
+	sort.Slice(dirs, func(i, j int) bool { return natLess(filepath.Base(dirs[i]), filepath.Base(dirs[j])) })
+	lv, _ := os.ReadFile("/verif/props/levels.json")
+	levels := map[string]json.RawMessage{}
+	json.Unmarshal(lv, &levels)
+	var props []string
+	for id := range levels {
+		props = append(props, id)
+	}
+	sort.Strings(props)
+	var lines []string
+	missed := 0
+	for _, d := range dirs {
+		seed := filepath.Base(d)
+		if len(args) > 0 {
+			want := false
+			for _, a := range args {
+				if a == seed || strings.HasPrefix(seed, a+"-") {
+					want = true
+				}
+			}
+			if !want {
+				continue
+			}
+		}
+		pf := filepath.Join(d, "patch.diff")
+		data, err := os.ReadFile(pf)
+		if err != nil {
+			continue
+		}
+		var touched []string
+		for _, m := range regexp.MustCompile(`(?m)^\+\+\+ b/(\S+)`).FindAllStringSubmatch(string(data), -1) {
+			touched = append(touched, filepath.Dir(m[1]))
+		}
+		overlay, err := patchOverlay(pf)
+		if err != nil {
+			lines = append(lines, seed+": SKIPPED ("+err.Error()+")")
+			continue
+		}
+		var hits []string
+		for _, id := range props {
+			cfg, err := loadPropConfig(id)
+			if err != nil {
+				continue
+			}
+			covers := false
+			for _, pk := range cfg.Packages {
+				pk = strings.TrimPrefix(pk, "./")
+				for _, t := range touched {
+					if strings.HasSuffix(pk, "/...") {
+						if strings.HasPrefix(t+"/", strings.TrimSuffix(pk, "...")) {
+							covers = true
+						}
+					} else if pk == t {
+						covers = true
+					}
+				}
+			}
+			if !covers {
+				continue
+			}
+			p, err := LoadProgram(cfg.Packages, overlay)
+			if err != nil {
+				hits = append(hits, id+":does-not-load")
+				continue
+			}
+			outDir := filepath.Join("/verif/out/smt", "seed-"+seed+"-"+id)
+			os.RemoveAll(outDir)
+			_, obls, problems := selectAndRun(p, id, cfg, outDir, 20, false)
+			for _, o := range obls {
+				if o.Status != "discharged" {
+					hits = append(hits, id+":"+o.ID)
+				}
+			}
+			if len(problems) > 0 {
+				hits = append(hits, id+":contract-integrity")
+			}
+			os.RemoveAll(outDir)
+		}
+		verdict := "CAUGHT"
+		if len(hits) == 0 {
+			verdict = "MISSED"
+			missed++
+		}
+		if len(hits) > 4 {
+			hits = append(hits[:4], fmt.Sprintf("(+%d more)", len(hits)-4))
+		}
+		line := fmt.Sprintf("%s: %s | %s", seed, verdict, strings.Join(hits, " ; "))
+		fmt.Println(line)
+		lines = append(lines, line)
+	}
+	if len(args) == 0 {
+		os.WriteFile("/verif/seeded/RESULTS.txt", []byte(strings.Join(lines, "\n")+"\n"), 0o644)
+	}
+	fmt.Printf("seeded changes: %d, missed: %d\n", len(lines), missed)
+	return 0
+}
+
+func natLess(a, b string) bool {
+	pa, pb := strings.SplitN(a, "-", 2), strings.SplitN(b, "-", 2)
+	if pa[0] != pb[0] {
+		return pa[0] < pb[0]
+	}
+	na, _ := strconv.Atoi(pa[len(pa)-1])
+	nb, _ := strconv.Atoi(pb[len(pb)-1])
+	return na < nb
 }
 
 func cmdSelftest(args []string) int {
